@@ -4,16 +4,16 @@
    qbase::flow exactly like qconnection::space::FlowControlledDataStreams.  Definitions only.
 
    Every function takes a [variant]: [as_is] is the code as it stands, the other flags switch in
-   the repaired branch of one finding (F12, F13, F26), so the as-is and the repaired model are the
+   the repaired branch of one finding (F12, F13, F26, F27, F33), so the as-is and the repaired model are the
    same text and the stream registry selects one by the name of the run function. *)
 From Coq Require Import List NArith ZArith Bool.
 From GQ Require Export Lib.Base Model.RecvBuf Model.Sid Model.Flow.
 Import ListNotations.
 Local Open Scope N_scope.
 
-Record variant := mkvar { fix12 : bool; fix13 : bool; fix26 : bool }.
-Definition as_is : variant := mkvar false false false.
-Definition fixed : variant := mkvar true true true.
+Record variant := mkvar { fix12 : bool; fix13 : bool; fix26 : bool; fix27 : bool; fix33 : bool }.
+Definition as_is : variant := mkvar false false false false false.
+Definition fixed : variant := mkvar true true true true true.
 
 (* the six initial flow-control parameters plus the two stream counts of one endpoint *)
 Record params := mkp { p_msb : N; p_msu : N; p_md : N; p_sdbl : N; p_sdbr : N; p_sdu : N }.
@@ -429,9 +429,9 @@ Fixpoint create_remote (s : ds) (d : dir) (idxs : list N) : ds :=
     create_remote s2 d t
   end.
 
-Definition ds_try_accept (s : ds) (sid : N) : (ds * list frame) + rerr :=
+Definition ds_try_accept (v : variant) (s : ds) (sid : N) : (ds * list frame) + rerr :=
   let d := sid_dir sid in
-  let '(r', res, up) := try_accept_sid false (d_r s) d (sid_idx sid) in
+  let '(r', res, up) := try_accept_sid false (fix27 v) (d_r s) d (sid_idx sid) in
   match res with
   | AccExceed _ => inr EStreamLimit
   | AccOld => inl (s, [])
@@ -441,29 +441,29 @@ Definition ds_try_accept (s : ds) (sid : N) : (ds * list frame) + rerr :=
   end.
 
 (* the stream ended in both directions it had: remote.on_end_of_stream *)
-Definition ds_end_of_stream (s : ds) (sid : N) : ds * list frame :=
+Definition ds_end_of_stream (v : variant) (s : ds) (sid : N) : ds * list frame :=
   if role_eqb (sid_role sid) (d_role s) then (s, [])
   else
-    let '(r', up) := on_end_of_stream (d_r s) (sid_dir sid) (sid_idx sid) in
+    let '(r', up) := on_end_of_stream (fix27 v) (d_r s) (sid_dir sid) (sid_idx sid) in
     (with_r s r', match up with Some m => [FMaxStreams (sid_dir sid) m] | None => [] end).
 
 (* shutdown_receive; is_terminated holds at once only for a receive-only stream because this
    stream never delivers acknowledgements (the send half of a bidirectional stream stays open) *)
-Definition ds_shutdown_receive (s : ds) (sid : N) : ds * list frame :=
+Definition ds_shutdown_receive (v : variant) (s : ds) (sid : N) : ds * list frame :=
   match sid_dir sid with
-  | Uni => ds_end_of_stream s sid
+  | Uni => ds_end_of_stream v s sid
   | Bi => (s, [])
   end.
 
 (* who may send what: the role / direction checks at the head of recv_data / recv_stream_control.
    [sender_side] = the frame is one only the SENDING half of a stream emits (STREAM, RESET_STREAM,
    STREAM_DATA_BLOCKED); otherwise one only the RECEIVING half emits (STOP_SENDING, MAX_STREAM_DATA) *)
-Definition ds_check_sid (s : ds) (sid : N) (sender_side : bool) : (ds * list frame) + rerr :=
+Definition ds_check_sid (v : variant) (s : ds) (sid : N) (sender_side : bool) : (ds * list frame) + rerr :=
   if negb (role_eqb (sid_role sid) (d_role s)) then
-    if sender_side then ds_try_accept s sid
+    if sender_side then ds_try_accept v s sid
     else match sid_dir sid with
          | Uni => inr EStreamState
-         | Bi => ds_try_accept s sid
+         | Bi => ds_try_accept v s sid
          end
   else
     if sender_side then
@@ -474,13 +474,18 @@ Definition ds_check_sid (s : ds) (sid : N) (sender_side : bool) : (ds * list fra
     else inl (s, []).
 
 (* ---- packet loading *)
-Definition stream_allowed (s : ds) (sid : N) : bool :=
+(* LocalStreamIds::opened_streams: the allocation count; after the F33 repair never more than
+   the peer's limit *)
+Definition opened_streams (v : variant) (l : lsid) (d : dir) : N :=
+  if fix33 v then N.min (pget (l_next l) d) (pget (l_max l) d) else pget (l_next l) d.
+
+Definition stream_allowed (v : variant) (s : ds) (sid : N) : bool :=
   role_eqb (sid_role sid) (peer_of (d_role s))
-  || (dir_eqb (sid_dir sid) Bi && (sid_idx sid <? pget (l_next (d_l s)) Bi))
-  || (dir_eqb (sid_dir sid) Uni && (sid_idx sid <? pget (l_next (d_l s)) Uni)).
+  || (dir_eqb (sid_dir sid) Bi && (sid_idx sid <? opened_streams v (d_l s) Bi))
+  || (dir_eqb (sid_dir sid) Uni && (sid_idx sid <? opened_streams v (d_l s) Uni)).
 
 (* visiting order of try_load_data_into_once: (sid, tokens) *)
-Definition load_order (s : ds) : list (N * N) :=
+Definition load_order (v : variant) (s : ds) : list (N * N) :=
   let keys := map fst (d_outs s) in
   let all t := map (fun k => (k, t)) in
   let l :=
@@ -493,7 +498,7 @@ Definition load_order (s : ds) : list (N * N) :=
         (match alookup (d_outs s) c with Some _ => [(c, tok)] | None => [] end)
         ++ all DEFAULT_TOKENS (rev (filter (fun k => k <? c) keys) ++ rev (filter (fun k => c <? k) keys))
     end in
-  filter (fun kt => stream_allowed s (fst kt)) l.
+  filter (fun kt => stream_allowed v s (fst kt)) l.
 
 (* tries the streams in order; a failed attempt may still move a Ready sender to Sending *)
 Fixpoint try_streams (outs : list (N * sender)) (order : list (N * N)) (cap flow_limit : N)
@@ -516,14 +521,14 @@ Fixpoint try_streams (outs : list (N * sender)) (order : list (N * N)) (cap flow
   end.
 
 (* try_load_data_into_once: Some = a frame went out.  Returns state, remaining room, frames *)
-Definition load_once (s : ds) (cap : N) : option (ds * N * list frame) * ds * list frame :=
+Definition load_once (v : variant) (s : ds) (cap : N) : option (ds * N * list frame) * ds * list frame :=
   if cap <? STREAM_FRAME_MAX then (None, s, [])
   else
     match sc_credit (d_fs s) cap with
     | None => (None, s, [])       (* u64 underflow in avaliable(): panic, see c11_conn_limit *)
     | Some (fs1, credit, blk) =>
       let blkf := match blk with Some v => [FDataBlocked v] | None => [] end in
-      let '(outs', r) := try_streams (d_outs s) (load_order s) cap credit in
+      let '(outs', r) := try_streams (d_outs s) (load_order v s) cap credit in
       match r with
       | None =>
         let fs2 := match sc_return_back fs1 credit with Some x => x | None => fs1 end in
@@ -541,19 +546,19 @@ Definition load_once (s : ds) (cap : N) : option (ds * N * list frame) * ds * li
 
 (* try_load_data_into: repeat until nothing more goes out; result = at least one frame went out.
    Stream frames are reported first, then the control frames (DATA_BLOCKED) in emission order *)
-Fixpoint load_loop (fuel : nat) (s : ds) (cap : N) (sf cf : list frame) (any : bool)
+Fixpoint load_loop (v : variant) (fuel : nat) (s : ds) (cap : N) (sf cf : list frame) (any : bool)
   : ds * N * list frame * list frame * bool :=
   match fuel with
   | O => (s, cap, sf, cf, any)
   | S k =>
-    match load_once s cap with
-    | (Some (s', cap', f), _, c) => load_loop k s' cap' (sf ++ f) (cf ++ c) true
+    match load_once v s cap with
+    | (Some (s', cap', f), _, c) => load_loop v k s' cap' (sf ++ f) (cf ++ c) true
     | (None, s', c) => (s', cap, sf, cf ++ c, any)
     end
   end.
 
-Definition ds_load (s : ds) (cap : N) : ds * list Z :=
-  let '(s', room, sf, cf, any) := load_loop (N.to_nat (N.min cap 65536 / 2 + 2)) s cap [] [] false in
+Definition ds_load (v : variant) (s : ds) (cap : N) : ds * list Z :=
+  let '(s', room, sf, cf, any) := load_loop v (N.to_nat (N.min cap 65536 / 2 + 2)) s cap [] [] false in
   (s', [zb any; 0%Z; Z.of_N room] ++ frames_words (sf ++ cf)).
 
 (* ---- peer frames.  result words: code fresh, then frames *)
@@ -575,7 +580,7 @@ Definition in_set (s : ds) (sid : N) : option recver :=
   end.
 
 Definition ds_recv_stream (v : variant) (s : ds) (sid off len : N) (fin : bool) : ds * list Z :=
-  match ds_check_sid s sid true with
+  match ds_check_sid v s sid true with
   | inr e => inject_fail s e []
   | inl (s1, f1) =>
     match in_set s1 sid with
@@ -586,14 +591,14 @@ Definition ds_recv_stream (v : variant) (s : ds) (sid off len : N) (fin : bool) 
       | inl r' =>
         let fresh := match rc_phase r with PRecv | PSizeKnown _ => rc_fresh r off len | _ => 0 end in
         let s2 := with_rcv s1 (aupdate (d_rcv s1) sid r') in
-        let '(s3, f3) := if rc_inset r' then (s2, []) else ds_shutdown_receive s2 sid in
+        let '(s3, f3) := if rc_inset r' then (s2, []) else ds_shutdown_receive v s2 sid in
         inject_finish s3 fresh (f1 ++ f3)
       end
     end
   end.
 
 Definition ds_recv_reset (v : variant) (s : ds) (sid final : N) : ds * list Z :=
-  match ds_check_sid s sid true with
+  match ds_check_sid v s sid true with
   | inr e => inject_fail s e []
   | inl (s1, f1) =>
     match in_set s1 sid with
@@ -603,14 +608,14 @@ Definition ds_recv_reset (v : variant) (s : ds) (sid final : N) : ds * list Z :=
       | inr e => inject_fail s1 e f1
       | inl (r', fresh) =>
         let s2 := with_rcv s1 (aupdate (d_rcv s1) sid r') in
-        let '(s3, f3) := ds_shutdown_receive s2 sid in
+        let '(s3, f3) := ds_shutdown_receive v s2 sid in
         inject_finish s3 fresh (f1 ++ f3)
       end
     end
   end.
 
-Definition ds_recv_stop (s : ds) (sid err : N) : ds * list Z :=
-  match ds_check_sid s sid false with
+Definition ds_recv_stop (v : variant) (s : ds) (sid err : N) : ds * list Z :=
+  match ds_check_sid v s sid false with
   | inr e => inject_fail s e []
   | inl (s1, f1) =>
     match alookup (d_outs s1) sid with
@@ -622,8 +627,8 @@ Definition ds_recv_stop (s : ds) (sid err : N) : ds * list Z :=
     end
   end.
 
-Definition ds_recv_maxsd (s : ds) (sid v : N) : ds * list Z :=
-  match ds_check_sid s sid false with
+Definition ds_recv_maxsd (vr : variant) (s : ds) (sid v : N) : ds * list Z :=
+  match ds_check_sid vr s sid false with
   | inr e => inject_fail s e []
   | inl (s1, f1) =>
     match alookup (d_outs s1) sid with
@@ -632,8 +637,8 @@ Definition ds_recv_maxsd (s : ds) (sid v : N) : ds * list Z :=
     end
   end.
 
-Definition ds_recv_sdblocked (s : ds) (sid : N) : ds * list Z :=
-  match ds_check_sid s sid true with
+Definition ds_recv_sdblocked (v : variant) (s : ds) (sid : N) : ds * list Z :=
+  match ds_check_sid v s sid true with
   | inr e => inject_fail s e []
   | inl (s1, f1) => inject_finish s1 0 f1
   end.
@@ -644,8 +649,8 @@ Definition ds_recv_maxstreams (s : ds) (d : dir) (v : N) : ds * list Z :=
   | None => inject_finish s 0 []     (* assert!(val <= MAX_STREAMS_LIMIT): outside the decoder's range *)
   end.
 
-Definition ds_recv_sblocked (s : ds) (d : dir) (v : N) : ds * list Z :=
-  let '(r', up) := recv_streams_blocked (d_r s) d v in
+Definition ds_recv_sblocked (vr : variant) (s : ds) (d : dir) (v : N) : ds * list Z :=
+  let '(r', up) := recv_streams_blocked (fix27 vr) (d_r s) d v in
   inject_finish (with_r s r') 0 (match up with Some m => [FMaxStreams d m] | None => [] end).
 
 (* ---- application calls *)
@@ -748,7 +753,7 @@ Definition revise_outs (v : variant) (s : ds) (rejected : bool) : list (N * send
   map (fun ks =>
          let sid := fst ks in
          let d := sid_dir sid in
-         if (sid_idx sid <? pget (l_next (d_l s)) d)
+         if (sid_idx sid <? opened_streams v (d_l s) d)
             && (negb (fix26 v) || role_eqb (sid_role sid) (d_role s))      (* F26 *)
          then (sid, snd_revise (snd ks) rejected (revise_send_window (d_rem s) d))
          else ks) (d_outs s).
@@ -791,15 +796,15 @@ Definition ds_step (v : variant) (s : ds) (o : op) : ds * list Z :=
   | OShutdown sid => ds_shutdown s sid
   | ORead sid room => ds_read s sid room
   | OAccept d => ds_accept s d
-  | OLoad cap => ds_load s cap
+  | OLoad cap => ds_load v s cap
   | OStream sid off len fin => ds_recv_stream v s sid off len fin
   | OReset sid err final => ds_recv_reset v s sid final
-  | OStop sid err => ds_recv_stop s sid err
-  | OMaxSD sid w => ds_recv_maxsd s sid w
+  | OStop sid err => ds_recv_stop v s sid err
+  | OMaxSD sid w => ds_recv_maxsd v s sid w
   | OMaxStreams d w => ds_recv_maxstreams s d w
-  | OSBlocked d w => ds_recv_sblocked s d w
+  | OSBlocked d w => ds_recv_sblocked v s d w
   | OMaxData w => (with_fs s (sc_increase_limit (d_fs s) w), [0; 0; 0]%Z)
-  | OSDBlocked sid w => ds_recv_sdblocked s sid
+  | OSDBlocked sid w => ds_recv_sdblocked v s sid
   | OLose k => ds_lose s k
   end.
 
